@@ -592,12 +592,14 @@ def large_oracle(case):
 SUBS = [
     Sub("C06.large-grids", large_oracle, enumerate=enum_large,
         shards=(12, 16)),
+    # (grids of at most 40x40 cells: a call that has not come back after
+    # 90 s hangs - the "never a hang" clause)
     Sub("C06.exhaustive-small-grids", exhaustive_oracle, enumerate=enum_cases,
-        shards=(16, 16)),
+        shards=(16, 16), stall_s=90),
     Sub("C06.exhaustive-3x3-ingrid", exhaustive_oracle, enumerate=enum_3x3,
-        shards=(1, 16)),
+        shards=(1, 16), stall_s=90),
     Sub("C06.exhaustive-3x3-stars", star_oracle, enumerate=enum_star,
-        shards=(16, 16)),
+        shards=(16, 16), stall_s=90),
     Sub("C06.random-grids", random_oracle, strategy=random_case,
-        n=(400, 12000), shards=(8, 16)),
+        n=(400, 12000), shards=(8, 16), stall_s=90),
 ]
